@@ -65,6 +65,18 @@ def inline_private_helpers(bodies, rounds=2):
     arm / the thread body / a shared loop into a private helper" refactors for every rule that reads those bodies, instead
     of teaching each rule to look one call further."""
     notes = []
+    for root_name, prefix in INLINE_ROOTS:
+        notes += _inline_root(bodies, root_name, prefix, rounds)
+    return notes
+
+
+INLINE_ROOTS = (("engine::uci::Uci::execute", "engine::uci::"),
+                ("engine::search::negamax::negamax", "engine::search::negamax::"),
+                ("engine::search::quiescence::quiescence", "engine::search::quiescence::"))
+
+
+def _inline_root(bodies, INLINE_ROOT, prefix, rounds):
+    notes = []
     root = bodies.get(INLINE_ROOT)
     if root is None:
         return notes
@@ -88,7 +100,7 @@ def inline_private_helpers(bodies, rounds=2):
                     cn = cands[0] if len(cands) == 1 else cn
                 if callee is None or callee is cb or cn == INLINE_ROOT or callee.get("vis_pub") or callee.get("kind") not in ("Fn", "AssocFn"):
                     continue
-                if callee.get("file") != root.get("file") or not norm(cn).startswith("engine::uci::") or len(callee["blocks"]) > 400:
+                if callee.get("file") != root.get("file") or not norm(cn).startswith(prefix) or len(callee["blocks"]) > 400:
                     continue
                 if len(t["args"]) != callee["arg_count"] or "unwind" not in t and "unwind_k" not in t:
                     continue
